@@ -183,6 +183,119 @@ def rule_o9(ctx) -> None:
             ctx.finding("C17-O9", "SynCmd.cmd_benchmark.run:pairing", bf.loc(c), "the two reactions compared by the benchmark are not the normal forms of the same row (%s; %s): a row is then compared with the expected reaction of another row" % (o1[:2], o2[:2]))
 
 
+def rule_o10(ctx) -> None:
+    """Range clause: every value `wc_similarity` returns lies in [0, 1].  Tanimoto and Dice similarities do; constants
+    inside the interval do; a minimum / maximum of such values does.  A start value outside the interval (`np.inf` for a
+    running minimum) reaches the return on every path on which the running value is never replaced."""
+    ctx.rule("C17-O10", "every value wc_similarity returns is a similarity, a constant in [0, 1], or a min / max of such values", 2)
+    prog = ctx.prog
+    f = prog.func("synrbl.SynUtils.chem_utils.wc_similarity")
+    inner = {g.name: g for g in prog.functions.values() if g.parent is f}
+    cfg = CFG(f.node)
+
+    def inner_bounded(g) -> bool:
+        rets = [r for r in own_nodes(g.node) if isinstance(r, ast.Return) and r.value is not None]
+        return bool(rets) and all(bounded(g, r.value, r, 0)[0] for r in rets)
+
+    def bounded(g, e, at, depth):
+        """-> (ok, offending expression)"""
+        if depth > 6:
+            return False, e
+        if isinstance(e, ast.Constant):
+            ok = isinstance(e.value, (int, float)) and not isinstance(e.value, bool) and 0 <= e.value <= 1
+            return ok, e
+        if isinstance(e, ast.Call):
+            t = unparse(e.func).split(".")[-1]
+            if t in ("TanimotoSimilarity", "DiceSimilarity", "CosineSimilarity", "TverskySimilarity"):
+                return True, None
+            if t in inner:
+                return (True, None) if inner_bounded(inner[t]) else (False, e)
+            if t in ("min", "max", "amin", "amax", "fmin", "fmax", "nanmin", "nanmax", "float"):
+                args = []
+                for a in e.args:
+                    args += list(a.elts) if isinstance(a, (ast.List, ast.Tuple)) else [a]
+                for a in args:
+                    ok, off = bounded(g, a, at, depth + 1)
+                    if not ok:
+                        return False, off
+                return bool(args), e
+            return False, e
+        if isinstance(e, ast.IfExp):
+            for b in (e.body, e.orelse):
+                ok, off = bounded(g, b, at, depth + 1)
+                if not ok:
+                    return False, off
+            return True, None
+        if isinstance(e, ast.Name):
+            defs = [(st, v) for st, v, i in assignments_to(g, e.id) if i is None]
+            if not defs:
+                return False, e
+            # a running value: `x = <start>` ... `x = min(x, ..)`; the start counts only if it can reach the use
+            for st, v in defs:
+                self_ref = any(isinstance(x, ast.Name) and x.id == e.id for x in ast.walk(v))
+                if self_ref:
+                    inner_e = ast.Call(func=ast.Name(id="min", ctx=ast.Load()), args=[a for a in (v.args if isinstance(v, ast.Call) else []) if not (isinstance(a, ast.Name) and a.id == e.id)], keywords=[])
+                    if not (isinstance(v, ast.Call) and unparse(v.func).split(".")[-1] in ("min", "max", "fmin", "fmax")):
+                        return False, v
+                    ok, off = bounded(g, inner_e, st, depth + 1) if inner_e.args else (True, None)
+                    if not ok:
+                        return False, off
+                    continue
+                ok, off = bounded(g, v, st, depth + 1)
+                if not ok:
+                    # does this definition reach the use without being replaced?  (a loop entered from outside runs
+                    # its body at least once)
+                    if g is f and _reaches_unreplaced(cfg, f, st, at, e.id, [d for d, _v in defs if d is not st]):
+                        return False, off
+                    if g is not f:
+                        return False, off
+            return True, None
+        return False, e
+
+    rets = [r for r in own_nodes(f.node) if isinstance(r, ast.Return) and r.value is not None]
+    ctx.require(len(rets) >= 2, "wc_similarity has fewer than two value returns")
+    for r in rets:
+        ok, off = bounded(f, r.value, r, 0)
+        ctx.instance("C17-O10", "wc_similarity: return %s is within [0, 1]: %s" % (unparse(r.value)[:50], ok), f.loc(r), ok=ok)
+        if not ok:
+            ctx.finding("C17-O10", "chem_utils.wc_similarity:return-outside-unit-interval", f.loc(r), "the returned value %s can be %s, which is not a similarity, a constant in [0, 1] or a minimum / maximum of such values: for two reactions on which no side replaces the start value the similarity lies outside [0, 1]" % (unparse(r.value)[:40], unparse(off)[:40] if off is not None else "?"))
+
+
+def _reaches_unreplaced(cfg, f, start_stmt, use_stmt, name, other_defs) -> bool:
+    a, b = cfg.node_of(start_stmt), cfg.node_of(use_stmt)
+    if a is None or b is None:
+        return True
+    blockers = {cfg.node_of(d) for d in other_defs} - {None}
+
+    def inside(node_id, loop_stmt) -> bool:
+        st = cfg.nodes[node_id].ast
+        cur = st
+        while cur is not None:
+            if cur is loop_stmt:
+                return True
+            cur = getattr(cur, "_parent", None)
+        return False
+
+    seen, stack = set(), [(a, None)]
+    while stack:
+        x, pred = stack.pop()
+        if (x, pred is not None and cfg.nodes[x].kind == "loop" and inside(pred, cfg.nodes[x].ast)) in seen:
+            continue
+        seen.add((x, pred is not None and cfg.nodes[x].kind == "loop" and inside(pred, cfg.nodes[x].ast)))
+        if x == b:
+            return True
+        if x in blockers and x != a:
+            continue
+        n = cfg.nodes[x]
+        succ = list(n.succ)
+        if n.kind == "loop" and isinstance(n.ast, ast.For) and not (pred is not None and inside(pred, n.ast) and pred != x):
+            # entered from outside: the body runs at least once
+            succ = [y for y in succ if not (cfg.nodes[y].kind == "edge" and getattr(cfg.nodes[y], "polarity", None) is False)]
+        for y in succ:
+            stack.append((y, x))
+    return False
+
+
 def check(ctx) -> None:
     prog = ctx.prog
     f = prog.func(NORM)
@@ -193,6 +306,7 @@ def check(ctx) -> None:
     rule_o6(ctx)
     rule_o8(ctx)
     rule_o9(ctx)
+    rule_o10(ctx)
     # the normal form may be built by normalize_smiles itself or by a helper it calls (e.g. a memoised per-side helper)
     family = [f]
     for c in calls(f):
